@@ -1,0 +1,23 @@
+//go:build verif
+
+package search
+
+import (
+	"fmt"
+
+	"github.com/sourcegraph/zoekt"
+)
+
+// VerifShardedSearcher returns the real shardedSearcher (Search, StreamSearch, streamSearch, the scheduler)
+// over the given in-memory shards, marked ready. Shards are ranked as in production: by decreasing
+// priority, then by the name of their first repository. Verification hook; not part of the normal build.
+func VerifShardedSearcher(parallelism int64, shards []zoekt.Searcher) zoekt.Streamer {
+	ss := newShardedSearcher(parallelism)
+	m := make(map[string]zoekt.Searcher, len(shards))
+	for i, s := range shards {
+		m[fmt.Sprintf("verif-shard-%06d", i)] = s
+	}
+	ss.replace(m)
+	ss.markReady()
+	return ss
+}
